@@ -12,7 +12,7 @@ Proof.
   unfold settings_maxf. induction kv as [|[i v] t IH]; intros cur H Hc; simpl in *; [assumption|].
   apply andb_prop in H. destruct H as [H1 H2]. apply IH; [assumption|].
   destruct (N.eqb i 5) eqn:E; [|assumption].
-  unfold setting_ok in H1. simpl in H1. rewrite E in H1. simpl in H1.
+  unfold setting_ok, setting_accept in H1. simpl in H1. rewrite E in H1. simpl in H1.
   apply andb_prop in H1. destruct H1 as [_ H1]. apply andb_prop in H1. destruct H1 as [H1 _].
   apply N.leb_le in H1. lia.
 Qed.
@@ -213,3 +213,43 @@ Lemma repeated_initial_window_example :
   rfc_valid w_k2s = true /\ single_init w_k2s = false /\ c09_ok w_k2s (obs_of w_k2s) = true
   /\ sents Sv 1 (concat (firstn 4 (obs_of w_k2s))) = 0%Z /\ sents Sv 1 (concat (obs_of w_k2s)) = 30%Z.
 Proof. vm_compute. repeat split; reflexivity. Qed.
+
+(* ------------------------------------------------ the DATA split loop always terminates *)
+(* repaired (fixes/C09-3): an out-of-range MAX_FRAME_SIZE stops the reader, so the size the relay
+   splits to is at least 16384 after ANY script, valid or not *)
+Lemma settings_maxf_ge kv : forall cur,
+  forallb setting_accept kv = true -> (16384 <= cur)%N -> (16384 <= settings_maxf cur kv)%N.
+Proof.
+  unfold settings_maxf. induction kv as [|[i v] t IH]; intros cur H Hc; simpl in *; [assumption|].
+  apply andb_prop in H. destruct H as [H1 H2]. apply IH; [assumption|].
+  destruct (N.eqb i 5) eqn:E; [|assumption].
+  unfold setting_accept in H1. simpl in H1. rewrite E in H1. simpl in H1.
+  apply andb_prop in H1. destruct H1 as [_ H1]. apply andb_prop in H1. destruct H1 as [H1 _].
+  apply N.leb_le in H1. assumption.
+Qed.
+
+Lemma front_maxf_ge f y fr f' acts :
+  front f y fr = Some (f', acts) -> (forall x, (16384 <= f_maxf f x)%N) -> forall x, (16384 <= f_maxf f' x)%N.
+Proof.
+  intros F Hm x. pose proof F as F0. unfold front in F.
+  destruct (negb (frame_ok (f_cont f y) fr)) eqn:OK; [discriminate|]. apply negb_false_iff in OK.
+  destruct fr as [s es d pad|s es eh pr fid e0|s eh|s p|s c|kv| |s eh pm fid|a d|l c d|s inc];
+    try (destruct (front_ledger _ _ _ _ _ F0) as (_ & _ & _ & _ & _ & _ & L6); rewrite L6;
+         destruct (side_eqb y x); simpl; apply Hm).
+  destruct (f_cont f y); simpl in OK; [discriminate|].
+  inversion F; subst. destruct y, x; simpl; try apply (Hm Cl); try apply (Hm Sv);
+    apply settings_maxf_ge; auto; try apply (Hm Cl); apply (Hm Sv).
+Qed.
+
+Lemma run_maxf_ge ls : forall st,
+  (forall x, (16384 <= f_maxf (sf st) x)%N) -> forall x, (16384 <= f_maxf (sf (fst (run st ls))) x)%N.
+Proof.
+  induction ls as [|l t IH]; intros st Hm x; simpl; [apply Hm|].
+  unfold step. destruct (front (sf st) (l_from l) (l_frame l)) as [[f' acts]|] eqn:F; [|apply Hm].
+  destruct (bsteps (f_tab f') (sb st) (l_order l) acts) as [b' evs].
+  specialize (IH (mkS f' b') (front_maxf_ge _ _ _ _ _ F Hm) x).
+  destruct (run (mkS f' b') t) as [st2 r]. exact IH.
+Qed.
+
+Theorem split_size_always_legal ls x : (16384 <= f_maxf (sf (final ls)) x)%N.
+Proof. unfold final. apply run_maxf_ge. intros y. destruct y; simpl; lia. Qed.
